@@ -506,11 +506,9 @@ def enrich (glob : Bytes → Option (List Bytes)) (dur : Bytes → Option Nat)
     aliases of `into`. -/
 def mergePackages (frm into : Package) : Except Err Package :=
   if frm.targets.any (fun t => into.targets.any (fun u => u.label = t.label)) then .error .dupLabel
-  else
-    let ts := into.targets ++ frm.targets
-    if frm.aliases.any (fun a => into.aliases.any (fun b => b.label = a.label) ||
-                                 ts.any (fun u => u.label = a.label)) then .error .dupLabel
-    else .ok ⟨into.path, ts, into.aliases ++ frm.aliases⟩
+  else if frm.aliases.any (fun a => into.aliases.any (fun b => b.label = a.label) ||
+                                    (into.targets ++ frm.targets).any (fun u => u.label = a.label)) then .error .dupLabel
+  else .ok ⟨into.path, into.targets ++ frm.targets, into.aliases ++ frm.aliases⟩
 
 /-- insert a loaded package into `loadedPackages` (keyed by the directory it was loaded from) -/
 def insertPkg : List (Bytes × Package) → Bytes → Package → Except Err (List (Bytes × Package))
@@ -558,5 +556,20 @@ def loadGraph (arrivals : List (Bytes × Package)) : Except Err (List Node) :=
   match mergeAll arrivals with
   | .error e => .error e
   | .ok m => nodeMap [] (m.flatMap (fun kp => kp.2.nodes))
+
+/-- `LoadPackages` as a whole: `files` are the BUILD files in the order their worker finished, each with
+    the outcome of Load + getEnrichedPackage. Any failing file fails the load (`setError` + cancel). -/
+def collectOk : List (Bytes × Except Err Package) → Except Err (List (Bytes × Package))
+  | [] => .ok []
+  | (_, .error e) :: _ => .error e
+  | (k, .ok p) :: rest =>
+    match collectOk rest with
+    | .error e => .error e
+    | .ok l => .ok ((k, p) :: l)
+
+def loadWorkspace (files : List (Bytes × Except Err Package)) : Except Err (List Node) :=
+  match collectOk files with
+  | .error e => .error e
+  | .ok arrivals => loadGraph arrivals
 
 end Grog.Loader
